@@ -339,8 +339,11 @@ def finish(out: Outcome, tier: str, seed: int, wall0: float) -> int:
     """Write replays + evidence, print KNOWN-FINDING / VIOLATION lines, return exit code."""
     pid = out.property_id
     known = {k["key"]: k for k in load_known() if k["property"] == pid and k.get("status", "known") == "known"}
-    os.makedirs(os.path.join(ROOT, "replays"), exist_ok=True)
-    os.makedirs(os.path.join(ROOT, "evidence"), exist_ok=True)
+    # VERIF_OUT_DIR redirects evidence/replays (used when a check is run against a scratch copy of the
+    # repository, e.g. a seeded mutant, so that the committed evidence of /repo itself is not clobbered)
+    out_root = os.environ.get("VERIF_OUT_DIR") or ROOT
+    os.makedirs(os.path.join(out_root, "replays"), exist_ok=True)
+    os.makedirs(os.path.join(out_root, "evidence"), exist_ok=True)
     violations: List[Failure] = []
     known_seen: Dict[str, Failure] = {}
     for f in out.failures:
@@ -355,7 +358,7 @@ def finish(out: Outcome, tier: str, seed: int, wall0: float) -> int:
     for f in violations:
         f.record["key"] = f.key
         f.record["what"] = f.what
-        path = os.path.join(ROOT, "replays", "%s-%s.json" % (pid, record_hash(f.record)))
+        path = os.path.join(out_root, "replays", "%s-%s.json" % (pid, record_hash(f.record)))
         with open(path, "w") as fh:
             json.dump(f.record, fh, indent=1, sort_keys=True)
         f.replay_path = path
@@ -378,7 +381,7 @@ def finish(out: Outcome, tier: str, seed: int, wall0: float) -> int:
         "wall_s": round(time.time() - wall0, 2),
         "violations": len(violations),
     }
-    with open(os.path.join(ROOT, "evidence", pid + ".json"), "w") as fh:
+    with open(os.path.join(out_root, "evidence", pid + ".json"), "w") as fh:
         json.dump(ev, fh, indent=1, sort_keys=True, default=str)
     for l in lines:
         print(l)
